@@ -28,6 +28,7 @@ class FA:
         self.cfg = cfgmod.build(fi.node)
         self.rd = ReachingDefs(self.cfg, fi.params())
         self._facts = {}
+        self._order = None
 
     # ------------------------------------------------------------------- facts
     def facts(self, assume=(), await_kills=False, tests_only=False):
@@ -67,8 +68,22 @@ class FA:
         return out
 
     def stmts(self, types, pred=None):
+        """local nodes of the given types in tree order (body, handlers, orelse, finalbody) — equal to source order on an
+        untouched tree, and stable when lbsa.alpha swapped mirrored if/else arms back (line numbers are then out of order)"""
         out = [n for n in self.local_nodes(types) if pred is None or pred(n)]
-        out.sort(key=lambda n: (n.lineno, n.col_offset))
+        if self._order is None:
+            self._order = {}
+            i = 0
+            stack = [self.node]
+            # explicit pre-order over fields in declaration order
+            def visit(n):
+                nonlocal i
+                self._order[id(n)] = i
+                i += 1
+                for ch in ast.iter_child_nodes(n):
+                    visit(ch)
+            visit(self.node)
+        out.sort(key=lambda n: self._order.get(id(n), 1 << 30))
         return out
 
     def cfg_nodes(self, ast_node):
